@@ -134,32 +134,167 @@ Lemma get_log_set l g g' x :
   get_log (alist_set g' x l) g = if N.eqb g g' then x else get_log l g.
 Proof. unfold get_log. rewrite aget_set. destruct (N.eqb g g'); reflexivity. Qed.
 
-Lemma target_call_spec c l F target fn args ts l' ret ts' :
-  target_call c l F target fn args ts = Ok (l', ret, ts') ->
-  memb target (c_targets c) = true /\
-  (forall g, get_log l' g = if N.eqb g target then get_log l target ++ [(fn, args)] else get_log l g) /\
-  ret = Z.of_nat (length (get_log l' target)).
+(* ---- the target call ---- *)
+Definition toks_inv (tks : list (addr * tokst)) : Prop := forall tok, alw_inv (get_tokm tks tok).
+
+Lemma get_tokm_set tks tok t' t :
+  get_tokm (alist_set tok t' tks) t = if N.eqb t tok then t' else get_tokm tks t.
+Proof. unfold get_tokm. rewrite aget_set. destruct (N.eqb t tok); reflexivity. Qed.
+
+Lemma toks_inv_set tks tok t' : toks_inv tks -> alw_inv t' -> toks_inv (alist_set tok t' tks).
+Proof. intros H Ht t. rewrite get_tokm_set. destruct (N.eqb t tok); [exact Ht|apply H]. Qed.
+
+Lemma alw_inv_same_alw t t' : t_alw t' = t_alw t -> alw_inv t -> alw_inv t'.
+Proof. intros E H o s. rewrite (alw_get_same_alw _ _ _ _ E). apply H. Qed.
+
+(* whatever a re-entering target manages to do keeps the allowance-entry invariant *)
+Lemma inner_pull_inv c nw tks target tk spender from to amt ts tks' :
+  1 <= min_temp_ttl (c_host c) ->
+  inner_pull c nw tks target tk spender from to amt ts = Ok tks' -> toks_inv tks -> toks_inv tks'.
 Proof.
-  unfold target_call. destruct (memb target (c_targets c)); cbn [guard bind]; [|discriminate].
-  intros H.
-  assert (Hgen : l' = alist_set target (get_log l target ++ [(fn, args)]) l /\
-                 ret = Z.of_nat (length (get_log l target ++ [(fn, args)]))).
-  { destruct args as [|x1 r1]; [discriminate|].
-    destruct x1 as [who|v].
-    - destruct r1 as [|x2 r2]; [discriminate|]. destruct x2 as [w2|v2]; [discriminate|].
-      destruct r2; [|discriminate].
-      destruct (N.eqb fn F_AUTH); [|discriminate].
-      destruct (require_auth true (Some F) who _ (push_frame ts)); cbn [bind] in H; [|discriminate].
-      inversion H. split; reflexivity.
-    - destruct r1; [|discriminate]. destruct (N.eqb fn F_HIT); [|discriminate].
-      inversion H. split; reflexivity. }
-  destruct Hgen as [-> ->]. split; [reflexivity|]. split.
-  - intros g. apply get_log_set.
-  - rewrite get_log_set, N.eqb_refl. reflexivity.
+  intros Hm. unfold inner_pull.
+  destruct (memb tk (c_tokens c)); cbn [guard bind]; [|discriminate].
+  destruct (require_auth2 _ _ _ _) as [ts2|]; cbn [bind]; [|discriminate].
+  unfold spend_allowance. destruct (amt <? 0) eqn:E0; cbn [bind]; [discriminate|].
+  destruct (allowance_data nw (get_tokm tks tk) from spender) as [a l].
+  destruct (a <? amt); cbn [bind]; [discriminate|].
+  destruct (0 <? amt) eqn:E1.
+  - destruct (set_allowance _ _ _ _ _ _ _) as [t1|] eqn:Es; cbn [bind]; [|discriminate].
+    destruct (update_transfer t1 from to amt) as [t2|] eqn:Eu; cbn [bind]; [|discriminate].
+    intros H Hi. inversion H; subst. apply toks_inv_set; [exact Hi|].
+    destruct (update_transfer_spec _ _ _ _ _ Eu) as [_ [_ [_ [Ha _]]]].
+    apply (alw_inv_same_alw _ _ Ha). apply (sa_inv _ _ _ _ _ _ _ _ (set_allowance_spec _ _ _ _ _ _ _ _ Hm Es)). apply Hi.
+  - cbn [bind]. destruct (update_transfer _ from to amt) as [t2|] eqn:Eu; cbn [bind]; [|discriminate].
+    intros H Hi. inversion H; subst. apply toks_inv_set; [exact Hi|].
+    destruct (update_transfer_spec _ _ _ _ _ Eu) as [_ [_ [_ [Ha _]]]].
+    apply (alw_inv_same_alw _ _ Ha). apply Hi.
+Qed.
+
+Lemma inner_approve_inv c nw tks target tk owner spender amt exp ts tks' :
+  1 <= min_temp_ttl (c_host c) ->
+  inner_approve c nw tks target tk owner spender amt exp ts = Ok tks' -> toks_inv tks -> toks_inv tks'.
+Proof.
+  intros Hm. unfold inner_approve.
+  destruct (memb tk (c_tokens c)); cbn [guard bind]; [|discriminate].
+  destruct (require_auth2 _ _ _ _) as [ts2|]; cbn [bind]; [|discriminate].
+  destruct (set_allowance _ _ _ _ _ _ _) as [t1|] eqn:Es; cbn [bind]; [|discriminate].
+  intros H Hi. inversion H; subst. apply toks_inv_set; [exact Hi|].
+  apply (sa_inv _ _ _ _ _ _ _ _ (set_allowance_spec _ _ _ _ _ _ _ _ Hm Es)). apply Hi.
+Qed.
+
+Lemma scripted_inv (P : list (addr * tokst) -> Prop) fn args sw tks r ent tks' :
+  scripted fn args sw tks r = Ok (ent, tks') -> P tks -> (forall x, r = Ok x -> P x) -> P tks'.
+Proof.
+  unfold scripted. destruct r as [x|].
+  - intros H _ Hr. inversion H; subst. apply Hr. reflexivity.
+  - destruct (sw =? 0); [discriminate|]. intros H Hp _. inversion H; subst. exact Hp.
+Qed.
+
+Lemma target_body_inv c nw tks F target fn args ts ent tks' :
+  1 <= min_temp_ttl (c_host c) ->
+  target_body c nw tks F target fn args ts = Ok (ent, tks') -> toks_inv tks -> toks_inv tks'.
+Proof.
+  intros Hm H Hi. unfold target_body in H.
+  destruct args as [|x1 r1]; [discriminate|]. destruct x1 as [a1|v1].
+  2:{ destruct r1; [|discriminate]. destruct (N.eqb fn F_HIT); inversion H; subst. exact Hi. }
+  destruct r1 as [|x2 r2]; [discriminate|]. destruct x2 as [a2|v2].
+  2:{ destruct r2; [|discriminate]. destruct (N.eqb fn F_AUTH).
+      - destruct (require_auth true (Some F) a1 _ ts); cbn [bind] in H; inversion H; subst. exact Hi.
+      - destruct (N.eqb fn F_REENTER); [|discriminate].
+        eapply (scripted_inv toks_inv); eauto. intros x Hx. discriminate. }
+  destruct r2 as [|x3 r3]; [discriminate|]. destruct x3 as [a3|v3]; [|discriminate].
+  destruct r3 as [|x4 r4]; [discriminate|]. destruct x4 as [a4|v4].
+  - destruct r4 as [|x5 r5]; [discriminate|]. destruct x5 as [a5|v5]; [discriminate|].
+    destruct r5 as [|x6 r6]; [discriminate|]. destruct x6 as [a6|v6]; [discriminate|].
+    destruct r6; [|discriminate]. destruct (N.eqb fn F_PULL); [|discriminate].
+    eapply (scripted_inv toks_inv); eauto. intros x Hx. eapply inner_pull_inv; eauto.
+  - destruct r4 as [|x5 r5]; [discriminate|]. destruct x5 as [a5|v5]; [discriminate|].
+    destruct r5 as [|x6 r6]; [discriminate|]. destruct x6 as [a6|v6]; [discriminate|].
+    destruct r6; [|discriminate]. destruct (N.eqb fn F_APPROVE_FOR); [|discriminate].
+    eapply (scripted_inv toks_inv); eauto. intros x Hx. eapply inner_approve_inv; eauto.
+Qed.
+
+(* under [wf_call] the inner calls of a re-entering target are refused: nothing but the log moves *)
+Lemma scripted_fail fn args sw tks ent tks' :
+  scripted fn args sw tks Fail = Ok (ent, tks') -> ent = (fn, args ++ [AI 0]) /\ tks' = tks.
+Proof. unfold scripted. destruct (sw =? 0); [discriminate|]. intros H. inversion H. auto. Qed.
+
+Lemma inner_pull_refused c nw tks target tk spender from to amt ts au :
+  map tk_entry ts = au -> N.eqb target spender = false ->
+  has_sub_or_root au spender (mkf tk F_TRANSFER_FROM [VA spender; VA from; VA to; VI amt]) = false ->
+  inner_pull c nw tks target tk spender from to amt ts = Fail.
+Proof.
+  intros Hen Hne Hno. unfold inner_pull.
+  destruct (memb tk (c_tokens c)); cbn [guard bind]; [|reflexivity].
+  destruct (require_auth2 _ _ _ _) as [ts2|] eqn:E; cbn [bind]; [|reflexivity].
+  destruct (require_auth2_covers _ _ _ _ _ E) as [H|H].
+  - apply N.eqb_neq in Hne. contradiction.
+  - rewrite Hen in H. unfold has_sub_or_root in Hno. unfold covers in H. congruence.
+Qed.
+
+Lemma inner_approve_refused c nw tks target tk owner spender amt exp ts au :
+  map tk_entry ts = au -> N.eqb target owner = false ->
+  has_sub_or_root au owner (mkf tk F_APPROVE (approve_args owner spender amt exp)) = false ->
+  inner_approve c nw tks target tk owner spender amt exp ts = Fail.
+Proof.
+  intros Hen Hne Hno. unfold inner_approve.
+  destruct (memb tk (c_tokens c)); cbn [guard bind]; [|reflexivity].
+  destruct (require_auth2 _ _ _ _) as [ts2|] eqn:E; cbn [bind]; [|reflexivity].
+  destruct (require_auth2_covers _ _ _ _ _ E) as [H|H].
+  - apply N.eqb_neq in Hne. contradiction.
+  - rewrite Hen in H. unfold has_sub_or_root in Hno. unfold covers in H. congruence.
+Qed.
+
+Lemma target_body_spec c nw tks k tok fee max exp target fn args user relayer au ts ent tks' :
+  wf_call c (Forward k tok fee max exp target fn args user relayer au) = true ->
+  map tk_entry ts = au ->
+  target_body c nw tks (fwd_addr c k) target fn args (push_frame ts) = Ok (ent, tks') ->
+  ent = expected_entry fn args /\ tks' = tks.
+Proof.
+  intros Hwf Hen H. unfold target_body in H. cbn [wf_call] in Hwf. unfold expected_entry, is_script.
+  assert (Hen' : map tk_entry (push_frame ts) = au) by (rewrite push_frame_entries; exact Hen).
+  destruct args as [|x1 r1]; [discriminate|]. destruct x1 as [a1|v1].
+  2:{ destruct r1; [|discriminate]. destruct (N.eqb fn F_HIT) eqn:E; [|discriminate]. inversion H; subst.
+      apply N.eqb_eq in E. subst fn. split; reflexivity. }
+  destruct r1 as [|x2 r2]; [discriminate|]. destruct x2 as [a2|v2].
+  2:{ destruct r2; [|discriminate]. destruct (N.eqb fn F_AUTH) eqn:E.
+      - destruct (require_auth true (Some (fwd_addr c k)) a1 _ _); cbn [bind] in H; inversion H; subst.
+        apply N.eqb_eq in E. subst fn. split; reflexivity.
+      - destruct (N.eqb fn F_REENTER) eqn:E2; [|discriminate]. apply N.eqb_eq in E2. subst fn.
+        apply scripted_fail in H. destruct H as [-> ->]. split; reflexivity. }
+  destruct r2 as [|x3 r3]; [discriminate|]. destruct x3 as [a3|v3]; [|discriminate].
+  destruct r3 as [|x4 r4]; [discriminate|]. destruct x4 as [a4|v4].
+  - destruct r4 as [|x5 r5]; [discriminate|]. destruct x5 as [a5|v5]; [discriminate|].
+    destruct r5 as [|x6 r6]; [discriminate|]. destruct x6 as [a6|v6]; [discriminate|].
+    destruct r6; [|discriminate]. destruct (N.eqb fn F_PULL) eqn:E; [|discriminate].
+    apply N.eqb_eq in E. subst fn. cbn [negb orb] in Hwf.
+    apply andb_true_iff in Hwf. destruct Hwf as [W1 W2]. apply negb_true_iff in W1. apply negb_true_iff in W2.
+    rewrite (inner_pull_refused _ _ _ _ _ _ _ _ _ _ _ Hen' W1 W2) in H.
+    apply scripted_fail in H. destruct H as [-> ->]. split; reflexivity.
+  - destruct r4 as [|x5 r5]; [discriminate|]. destruct x5 as [a5|v5]; [discriminate|].
+    destruct r5 as [|x6 r6]; [discriminate|]. destruct x6 as [a6|v6]; [discriminate|].
+    destruct r6; [|discriminate]. destruct (N.eqb fn F_APPROVE_FOR) eqn:E; [|discriminate].
+    apply N.eqb_eq in E. subst fn. cbn [negb orb] in Hwf.
+    apply andb_true_iff in Hwf. destruct Hwf as [W1 W2]. apply negb_true_iff in W1. apply negb_true_iff in W2.
+    rewrite (inner_approve_refused _ _ _ _ _ _ _ _ _ _ _ Hen' W1 W2) in H.
+    apply scripted_fail in H. destruct H as [-> ->]. split; reflexivity.
 Qed.
 
 Definition recipient_of (c : cfg) (k : kind) (relayer : addr) : addr :=
   match k with Permissioned => fwd_addr c k | Permissionless => relayer end.
+
+(* what holds of every successful forward, whatever the target does *)
+Record forward_pre (c : cfg) (st : state) (k : kind) (tok : addr) (fee max exp : Z)
+  (target : addr) (fn : N) (args : list atom) (user relayer : addr) (au : list entry) (t' : tokst) : Prop := {
+  fq_user_auth : existsb (fun e => covers_root e user
+                    (mkf (fwd_addr c k) F_FORWARD (user_args tok max exp target fn args))) au = true;
+  fq_relayer_auth : existsb (fun e => covers_root e relayer
+                    (mkf (fwd_addr c k) F_FORWARD (forward_args tok fee max exp target fn args user relayer))) au = true;
+  fq_role : match k with Permissioned => memb relayer (c_executors c) = true | Permissionless => True end;
+  fq_collect : collect_post c (now st) (al_of st k) (fwd_addr c k) (get_tok st tok) t'
+                 tok fee max exp user (recipient_of c k relayer) (approval_of k) au;
+  fq_target : memb target (c_targets c) = true
+}.
 
 Record forward_post (c : cfg) (st st' : state) (k : kind) (tok : addr) (fee max exp : Z)
   (target : addr) (fn : N) (args : list atom) (user relayer : addr) (au : list entry) (ret : Z) : Prop := {
@@ -175,7 +310,7 @@ Record forward_post (c : cfg) (st st' : state) (k : kind) (tok : addr) (fee max 
                  tok fee max exp user (recipient_of c k relayer) (approval_of k) au;
   fp_target : memb target (c_targets c) = true;
   fp_logs : forall g, get_log (logs st') g =
-              if N.eqb g target then get_log (logs st) target ++ [(fn, args)] else get_log (logs st) g;
+              if N.eqb g target then get_log (logs st) target ++ [expected_entry fn args] else get_log (logs st) g;
   fp_ret : ret = Z.of_nat (length (get_log (logs st') target))
 }.
 
@@ -184,10 +319,17 @@ Lemma get_tok_set st tok t' t l a :
   if N.eqb t tok then t' else get_tok st t.
 Proof. unfold get_tok. cbn [toks]. rewrite aget_set. destruct (N.eqb t tok); reflexivity. Qed.
 
-Lemma forward_spec c st k tok fee max exp target fn args user relayer au st' ret :
+(* the forward, opened up to the target call *)
+Lemma forward_open c st k tok fee max exp target fn args user relayer au st' ret :
   1 <= min_temp_ttl (c_host c) ->
   forward c st k tok fee max exp target fn args user relayer au = Ok (st', ret) ->
-  forward_post c st st' k tok fee max exp target fn args user relayer au ret.
+  exists t' ts3 ent tks',
+    forward_pre c st k tok fee max exp target fn args user relayer au t' /\
+    map tk_entry ts3 = au /\
+    target_body c (now st) (alist_set tok t' (toks st)) (fwd_addr c k) target fn args (push_frame ts3) = Ok (ent, tks') /\
+    st' = {| now := now st; toks := tks'; al := al st;
+             logs := alist_set target (get_log (logs st) target ++ [ent]) (logs st) |} /\
+    ret = Z.of_nat (length (get_log (logs st) target ++ [ent])).
 Proof.
   intros Hm. unfold forward.
   destruct (match k with Permissioned => memb relayer (c_executors c) | Permissionless => true end) eqn:Er;
@@ -196,18 +338,36 @@ Proof.
   destruct (require_auth false None user _ ts1) as [ts2|] eqn:E2; cbn [bind]; [|discriminate].
   destruct (collect_fee c (now st) (al_of st k) (fwd_addr c k) (get_tok st tok) tok fee max exp user _ (approval_of k) ts2)
     as [[t' ts3]|] eqn:E3; cbn [bind]; [|discriminate].
-  destruct (target_call c (logs st) (fwd_addr c k) target fn args ts3) as [[[l' r] ts4]|] eqn:E4; cbn [bind]; [|discriminate].
-  intros H. inversion H; subst st' r. clear H.
+  unfold target_call.
+  destruct (memb target (c_targets c)) eqn:Et; cbn [guard bind]; [|discriminate].
+  destruct (N.eqb target (fwd_addr c k)); cbn [negb guard bind]; [discriminate|].
+  destruct (target_body _ _ _ _ _ _ _ _) as [[ent tks']|] eqn:E4; cbn [bind]; [|discriminate].
+  intros H. inversion H; subst st' ret. clear H.
   pose proof (require_auth_outer _ _ _ _ E1) as A1. rewrite entries_init in A1.
   pose proof (require_auth_outer _ _ _ _ E2) as A2.
   rewrite (require_auth_entries _ _ _ _ _ _ E1), entries_init in A2.
-  destruct (collect_fee_spec _ _ _ _ _ _ _ _ _ _ _ _ _ _ _ Hm E3) as [P _].
-  rewrite (require_auth_entries _ _ _ _ _ _ E2), (require_auth_entries _ _ _ _ _ _ E1), entries_init in P.
-  destruct (target_call_spec _ _ _ _ _ _ _ _ _ _ E4) as [T1 [T2 T3]].
+  destruct (collect_fee_spec _ _ _ _ _ _ _ _ _ _ _ _ _ _ _ Hm E3) as [P Pe].
+  assert (Hen2 : map tk_entry ts2 = au).
+  { rewrite (require_auth_entries _ _ _ _ _ _ E2), (require_auth_entries _ _ _ _ _ _ E1). apply entries_init. }
+  rewrite Hen2 in P. rewrite Hen2 in Pe.
+  exists t', ts3, ent, tks'. split; [|split; [exact Pe|split; [exact E4|split; reflexivity]]].
+  constructor; auto; try (destruct k; [exact Er|exact I]); try (unfold recipient_of; destruct k; exact P).
+Qed.
+
+Lemma forward_spec c st k tok fee max exp target fn args user relayer au st' ret :
+  1 <= min_temp_ttl (c_host c) ->
+  wf_call c (Forward k tok fee max exp target fn args user relayer au) = true ->
+  forward c st k tok fee max exp target fn args user relayer au = Ok (st', ret) ->
+  forward_post c st st' k tok fee max exp target fn args user relayer au ret.
+Proof.
+  intros Hm Hwf H.
+  destruct (forward_open _ _ _ _ _ _ _ _ _ _ _ _ _ _ _ Hm H) as [t' [ts3 [ent [tks' [Q [Hen [Hb [-> ->]]]]]]]].
+  destruct (target_body_spec _ _ _ _ _ _ _ _ _ _ _ _ _ _ _ _ _ Hwf Hen Hb) as [-> ->].
+  destruct Q as [Q1 Q2 Q3 Q4 Q5].
   constructor; cbn [now al logs]; auto.
-  - destruct k; [exact Er|exact I].
   - intros t Hne. unfold get_tok. cbn [toks]. rewrite aget_set.
     destruct (N.eqb t tok) eqn:E; [apply N.eqb_eq in E; contradiction|reflexivity].
-  - unfold get_tok at 2. cbn [toks]. rewrite aget_set, N.eqb_refl.
-    unfold recipient_of. destruct k; exact P.
+  - unfold get_tok at 2. cbn [toks]. rewrite aget_set, N.eqb_refl. exact Q4.
+  - intros g. apply get_log_set.
+  - rewrite get_log_set, N.eqb_refl. reflexivity.
 Qed.
